@@ -8,9 +8,16 @@ use ntex_util::{future::join, task::LocalWaker};
 pub trait SizedRequest {
     fn size(&self) -> u32;
 
+    /// Request is a publish which payload is delivered in chunks
     fn is_publish(&self) -> bool;
 
+    /// Request is a payload chunk
     fn is_chunk(&self) -> bool;
+
+    /// Request is the final payload chunk
+    fn is_last_chunk(&self) -> bool {
+        false
+    }
 }
 
 pub struct InFlightServiceImpl<S> {
@@ -54,12 +61,12 @@ where
 
     #[inline]
     async fn call(&self, req: R, ctx: ServiceCtx<'_, Self>) -> Result<S::Response, S::Error> {
-        // process payload chunks
-        if self.publish.get() && !req.is_chunk() {
-            self.publish.set(false);
-        }
+        // payload chunks of a streamed publish bypass the limits,
+        // until the final chunk is received
         if req.is_publish() {
             self.publish.set(true);
+        } else if !req.is_chunk() || req.is_last_chunk() {
+            self.publish.set(false);
         }
 
         let size = if self.count.0.max_size > 0 { req.size() } else { 0 };
